@@ -267,6 +267,9 @@ inductive Req
   | enable
   | disable
   | advance (ms : Nat)
+  /-- the port is removed and created again under the same id with another definition (DELETE + POST /ports, or a
+  backup restore by PUT /ports); the tasks of the old port are gone with it -/
+  | redefine (d : PortDef)
 
 def isReject : Resp → Bool
   | .ok => false
@@ -350,6 +353,7 @@ def handle (cfg : Cfg) (st : PState) : Req → PState × Resp
     -- BasePort.disable: no-op when already disabled, else cancels the sequence
     if st.d.enabled then ({ st with d := { st.d with enabled := false }, pend := [] }, .ok) else (st, .ok)
   | .advance ms => ({ st with now := st.now + ms }, .ok)
+  | .redefine d => ({ st with d := d, pend := [] }, .ok)
 
 /-- One request, then whatever the event loop has ready (due emissions) runs. -/
 def step (cfg : Cfg) (st : PState) (r : Req) : PState × Resp :=
